@@ -18,7 +18,7 @@
 (*         grid, both colours                                              *)
 (* Stride/Off select a deterministic 1/Stride sample (quick tier).         *)
 (***************************************************************************)
-EXTENDS Fen, Zobrist, TLC
+EXTENDS Fen, Zobrist, TLC, Json
 
 CONSTANTS Fam, Stride, Off, WantM2
 
@@ -65,6 +65,16 @@ Castle(x) ==
             /\ CastleSkeleton(t[4])[x] = Empty
             /\ Sel(Mix(x, StateByte(t[3], 0), (IF t[1] = "." THEN 12 ELSE PieceIdx(t[1])), (IF t[2] = White THEN 0 ELSE 2) + (IF t[4] THEN 1 ELSE 0))) } }
 
+\* the enemy king itself next to (or on) the castling path: White keeps R3K2R and its rights, the black
+\* king stands on x (no black rights), optionally with one more black piece; and the colour mirror
+CastleKW(x) ==
+  { Mk(Put(Put(Put(Put(Put(EmptyBoard, 0, "R"), 4, "K"), 7, "R"), x, "k"), y, pc), stm, cast, 8) :
+      <<y, pc, stm, cast>> \in
+        { t \in {8, 15, 33, 62} \X {".", "r", "n", "b"} \X Sides \X ((SUBSET {"K", "Q"}) \ {{}}) :
+            /\ x \notin {0, 4, 7} /\ x \notin KingT[4] /\ t[1] # x /\ t[1] \notin {0, 4, 7}
+            /\ Sel(Mix(x, t[1], StateByte(t[4], 0), (IF t[2] = "." THEN 12 ELSE PieceIdx(t[2])) * 2 + (IF t[3] = White THEN 0 ELSE 1))) } }
+CastleK(x) == CastleKW(x) \cup { Mirror(p) : p \in CastleKW(x) }
+
 \* White to move, black pawn just played f7-f5 style double step to row 4
 EpW(wk) ==
   { Mk(Put(Put(Put(Put(Put(EmptyBoard, wk, "K"), bk, "k"), SqOf(4, f), "p"), sl, sp), SqOf(4, f + d), "P"), White, {}, f) :
@@ -95,7 +105,7 @@ Promo(f) == PromoW(f) \cup { Mirror(p) : p \in PromoW(f) }
 ---------------------------------------------------------------------------
 VARIABLE st
 Seeds == IF Fam = "PROMO" THEN 0..7 ELSE Sq
-Members(k) == CASE Fam = "KXK" -> KXK(k) [] Fam = "KXKY" -> KXKY(k) [] Fam = "CASTLE" -> Castle(k)
+Members(k) == CASE Fam = "KXK" -> KXK(k) [] Fam = "KXKY" -> KXKY(k) [] Fam = "CASTLE" -> Castle(k) \cup CastleK(k)
                 [] Fam = "MATES" -> Mates(k) [] Fam = "EP" -> Ep(k) [] Fam = "PROMO" -> Promo(k)
 
 Init == st \in { [stage |-> 0, k |-> k] : k \in Seeds }
@@ -117,8 +127,14 @@ PosClass(p) ==
   ELSE IF MateIn1Moves(p) # {} THEN "m1"
   ELSE IF WantM2 /\ KeepsMate2Moves(p) # {} THEN "m2"
   ELSE "other"
-EmitClass == st.stage = 1 => LET c == PosClass(st.pos) IN
-                             IF c = "other" THEN TRUE ELSE PrintT(<<"POS", c, FenLine(st.pos) \o " 0 1">>)
+\* for mate-in-one positions also the mating moves, for others the moves that stalemate the opponent:
+\* "search the position, then search the dead position one move later on the same table" scenarios
+EmitClass == st.stage = 1 =>
+  LET c == PosClass(st.pos)
+      m1 == IF c = "m1" THEN { Uci(m) : m \in MateIn1Moves(st.pos) } ELSE {}
+      s1 == IF c \in {"other", "m1"} THEN { Uci(m) : m \in { x \in Legal(st.pos) : Stalemate(Apply(st.pos, x)) } } ELSE {}
+  IN IF c = "other" /\ s1 = {} THEN TRUE
+     ELSE PrintT(<<"POS", IF c = "other" THEN "st1" ELSE c, FenLine(st.pos) \o " 0 1", ToJson([mate |-> m1, stale |-> s1])>>)
 
 Emit == st.stage = 1 => PrintT(<<"FEN", FenLine(st.pos) \o " 0 1">>)
 =============================================================================
